@@ -287,24 +287,23 @@ def judge(case, acc):
             continue
         acc.ev()
         acc.count('repr_html_checks')
-        m = re.fullmatch(r'<iframe srcdoc="([^"]*)" width="100%" height="[^"]*" style="border:none !important;" '
-                         r'allowfullscreen webkitallowfullscreen mozallowfullscreen></iframe>', h, re.S)
-        if not m or html.unescape(m.group(1)) != doc:
-            viol(f'repr-html/{R.__name__}', '_repr_html_() is not an iframe whose unescaped srcdoc equals to_html()')
-        else:
-            # the attribute value must survive an HTML parser too
-            class A(HTMLParser):
-                val = None
+        # the attribute value must survive an HTML parser: an iframe whose srcdoc, decoded, is exactly to_html()
+        class A(HTMLParser):
+            val = None
+            n = 0
 
-                def handle_starttag(self, tag, attrs):
-                    if tag == 'iframe' and A.val is None:
+            def handle_starttag(self, tag, attrs):
+                if tag == 'iframe':
+                    A.n += 1
+                    if A.val is None:
                         A.val = dict(attrs).get('srcdoc')
-            A.val = None
-            a = A(convert_charrefs=True)
-            a.feed(h)
-            a.close()
-            if A.val != doc:
-                viol(f'repr-html-attribute/{R.__name__}', 'srcdoc attribute parsed by an HTML parser differs from to_html()')
+        A.val = None
+        A.n = 0
+        a = A(convert_charrefs=True)
+        a.feed(h)
+        a.close()
+        if A.n != 1 or A.val != doc or not h.lstrip().startswith('<iframe'):
+            viol(f'repr-html/{R.__name__}', '_repr_html_() is not one iframe whose srcdoc attribute, decoded by an HTML parser, equals to_html()')
 
 
 def gen_case(rnd):
